@@ -187,6 +187,29 @@ Proof.
     rewrite alookup_aset_other in Ha' by exact Hne. exact Ha'.
 Qed.
 
+Lemma Rel_store_at : forall L a k st p e e' s src v,
+  ev_store a (IxC k) v e = Some e' -> Rel L st e s -> zidx (rop_val s p) = Some k -> rop_val s src = Some v ->
+  exists s', exec_instr (IStore src a p) s = Some s' /\ Rel L st e' s' /\ m_reg s' = m_reg s.
+Proof.
+  intros L a k0 st p e e' s src v Hs R Hk Hv. unfold ev_store in Hs.
+  destruct (alookup a (e_arr e)) as [l|] eqn:Ea; [|discriminate].
+  cbn [ev_index] in Hs.
+  destruct (lset l k0 (Some v)) as [l'|] eqn:El; [|discriminate]. inversion Hs; subst. clear Hs.
+  exists (set_arr s a l'). cbn [exec_instr]. rewrite (r_arr _ _ _ _ R), Ea, Hk, Hv.
+  rewrite <- lset_list_set, El. split; [reflexivity|]. split; [|reflexivity].
+  destruct R as [A B C D E F G HH I J K RD1 RD2]. constructor; cbn; try assumption.
+  - intro a'. unfold upd_nat. destruct (Nat.eqb a' a) eqn:Eq.
+    + apply Nat.eqb_eq in Eq. subst. rewrite alookup_aset_same. reflexivity.
+    + apply Nat.eqb_neq in Eq. rewrite alookup_aset_other by exact Eq. apply A.
+  - intros a' n Hn. destruct (B _ _ Hn) as (l0 & H0 & L0). destruct (Nat.eq_dec a' a) as [->|Hne].
+    + rewrite alookup_aset_same. exists l'. split; [reflexivity|]. rewrite Ea in H0. inversion H0; subst.
+      eapply lset_length; eauto.
+    + rewrite alookup_aset_other by exact Hne. eauto.
+  - intros a' Ha'. apply RD2. destruct (Nat.eq_dec a' a) as [->|Hne]; [congruence|].
+    rewrite alookup_aset_other in Ha' by exact Hne. exact Ha'.
+Qed.
+
+
 (* condition / add operands: value and code *)
 Lemma cval_sim : forall L x st st0 lx px tx st1 e s a,
   low_cval x st = Ok (lx, px, tx, st1) -> ev_cval x e = Some a -> Rel L st0 e s -> Inv st ->
@@ -240,6 +263,10 @@ Proof.
   - destruct (alook v (l_lv st)) as [r|] eqn:Ev; inversion H; subst. exists s. cbn.
     split; [reflexivity|]. split; [exact R|]. split; [|auto].
     rewrite Elv in Ev. destruct (r_lv _ _ _ _ R _ _ Ev) as (z & Hz & Hm). rewrite Hz in Ha. inversion Ha; subst. exact Hm.
+  - unfold rf_lookup in H. destruct (alook r (l_rf st)) as [[[] k]|] eqn:Er; try discriminate.
+    + destruct (i_rfM _ I _ _ Er) as [(m & X)|X]; discriminate.
+    + inversion H; subst. exists s. cbn. split; [reflexivity|]. split; [exact R|]. split; [|auto].
+      rewrite Erf in Er. eapply r_rf; eauto.
 Qed.
 
 (* ------------------------------------------------------------------ leaf statements *)
@@ -584,6 +611,109 @@ Proof.
     eapply sba_trans; [apply sba_release|apply sba_release_all].
 Qed.
 
+(* an entry addressed through another entry *)
+Lemma take_release_act : forall st t s1, take st = Ok (t, s1) -> l_act (release t s1) = l_act st.
+Proof.
+  intros st t s1 H. destruct (take_facts _ _ _ H) as (Hf & Ha & _). unfold release. cbn [l_act with_act].
+  rewrite Ha. apply set_nth_undo. exact Hf.
+Qed.
+
+Lemma load_at : forall L a k st e s v g z p,
+  ev_entry a (IxC k) e = Some v -> Rel L st e s -> rop_val s p = Some z -> (z <? 0)%Z = false -> k = Z.to_nat z ->
+  exec_instr (ILoad g a p) s = Some (set_reg s g v).
+Proof.
+  intros L a k st e s v g z p Hv R Hp Hz ->.
+  destruct (entry_val L a (IxC (Z.to_nat z)) st _ e s v eq_refl Hv R) as (l & k' & A & B & C).
+  cbn [rop_val] in B. rewrite zidx_of_nat in B. inversion B; subst k'.
+  cbn [exec_instr]. rewrite A, Hp. cbn [zidx]. rewrite Hz, C. reflexivity.
+Qed.
+
+Lemma sim_futaddx : forall a b n o m, sim_of (SFutAddX a b n o m).
+Proof.
+  intros a b n o m L st c st' e e' sg H I Hev HR. cbn [lower_stmt] in H.
+  destruct (take st) as [[t s1]|] eqn:Ht; cbn [bind] in H; [|discriminate].
+  destruct (take s1) as [[ti s1i]|] eqn:Hti; cbn [bind] in H; [|discriminate].
+  destruct (low_src o (release ti s1i)) as [[[[lo y] ts] s2]|] eqn:Hs; cbn [bind] in H; [|discriminate].
+  match type of H with Ok (?cc, ?X) = _ => assert (Ec : c = cc) by (inversion H; reflexivity);
+                                           assert (Es : st' = X) by (inversion H; reflexivity) end.
+  clear H. cbn [eval_stmt] in Hev.
+  destruct (ev_entry b (IxC n) e) as [z|] eqn:Eb; [|discriminate].
+  destruct (z <? 0)%Z eqn:Hz; [discriminate|].
+  destruct (ev_entry a (IxC (Z.to_nat z)) e) as [v|] eqn:Ev; [|discriminate].
+  destruct (ev_src o e) as [w|] eqn:Ew; [|discriminate].
+  destruct (ev_sum v w m) as [zs|] eqn:Ez; [|discriminate].
+  assert (Tf := take_facts _ _ _ Ht). destruct Tf as (Hfree & Hact1 & _ & Lv1 & Rf1 & _).
+  assert (Tfi := take_facts _ _ _ Hti). destruct Tfi as (Hfreei & Hacti & _ & Lvi & Rfi & _).
+  assert (I1 := Inv_take _ _ _ Ht I).
+  assert (Ea := take_release_act _ _ _ Hti).
+  assert (Sr : sba s1 (release ti s1i)) by (eapply sba_trans; [eapply sba_take; eauto|apply sba_release]).
+  assert (Ir : Inv (release ti s1i)) by (eapply Inv_sba; eauto).
+  assert (Ut : untracked st (Rg BR t)) by (apply untracked_free; assumption).
+  assert (Hfi0 : nth_error (l_act st) ti = Some false) by (rewrite Hact1 in Hfreei; eapply free_after_take; eauto).
+  assert (Uti : untracked st (Rg BR ti)) by (apply untracked_free; assumption).
+  assert (Hne : Rg BR t <> Rg BR ti).
+  { intro X. inversion X; subst. rewrite Hact1 in Hfreei.
+    rewrite nth_set_nth_same in Hfreei by (apply nth_error_Some; congruence). discriminate. }
+  (* load the index, load self *)
+  assert (E0 := load_entry L b (IxC n) st _ e sg z (Rg BR ti) eq_refl Eb HR).
+  assert (R0 : Rel L st e (set_reg sg (Rg BR ti) z)) by (apply Rel_set_reg; assumption).
+  assert (E1 := load_at L a _ st e _ v (Rg BR t) z (PReg (Rg BR ti)) Ev R0 (m_reg_set_same _ _ _) Hz eq_refl).
+  set (sgB := set_reg (set_reg sg (Rg BR ti) z) (Rg BR t) v) in *.
+  assert (R1 : Rel L st e sgB) by (apply Rel_set_reg; assumption).
+  (* other operand *)
+  destruct Sr as (_ & _ & _ & _ & SrF & SrV & _).
+  destruct (src_sim L o (release ti s1i) st lo y ts s2 e sgB w Hs Ew R1 Ir) as (sg2 & E2 & R2 & Y2 & K2 & A2);
+    [congruence|congruence|reflexivity|exact I| |].
+  { intros t' Hf'. apply untracked_free; [exact I|]. rewrite Ea, Hact1 in Hf'. eapply free_after_take; eauto. }
+  assert (Hh := low_src_held _ _ _ _ _ _ Hs).
+  assert (T2 : m_reg sg2 (Rg BR t) = Some v).
+  { rewrite K2; [apply m_reg_set_same|]. intros t' Hin.
+    eapply held_temp_fresh; eauto. rewrite Ea, Hact1. apply nth_set_nth_same. apply nth_error_Some. congruence. }
+  (* add, reload the index, store *)
+  assert (E3 := exec_add sg2 (Rg BR t) y m v w zs T2 Y2 Ez).
+  assert (R3 : Rel L st e (set_reg sg2 (Rg BR t) zs)) by (apply Rel_set_reg; assumption).
+  assert (E4 := load_entry L b (IxC n) st _ e _ z (Rg BR ti) eq_refl Eb R3).
+  set (sg4 := set_reg (set_reg sg2 (Rg BR t) zs) (Rg BR ti) z) in *.
+  assert (R4 : Rel L st e sg4) by (apply Rel_set_reg; assumption).
+  destruct (Rel_store_at L a (Z.to_nat z) st (PReg (Rg BR ti)) e e' sg4 (PReg (Rg BR t)) zs Hev R4) as (sg5 & E5 & R5 & _).
+  { cbn [rop_val]. unfold sg4. rewrite m_reg_set_same. cbn [zidx]. rewrite Hz. reflexivity. }
+  { cbn [rop_val]. unfold sg4. rewrite m_reg_set_other by exact Hne. apply m_reg_set_same. }
+  exists sg5. split.
+  - rewrite Ec. apply sx_instrs. unfold Lower.R.
+    eapply exec_instrs_app; [cbn [exec_instrs]; rewrite E0; fold sgB; cbn [exec_instrs]; unfold sgB; rewrite E1; reflexivity|].
+    eapply exec_instrs_app; [exact E2|]. cbn [exec_instrs]. rewrite E3, E4. fold sg4. rewrite E5. reflexivity.
+  - eapply Rel_sba; [exact R5|]. rewrite Es.
+    eapply sba_trans; [eapply sba_take; eauto|]. eapply sba_trans; [eapply sba_take; eauto|].
+    eapply sba_trans; [apply sba_release|]. eapply sba_trans; [eapply sba_held; eauto|].
+    eapply sba_trans; [apply sba_release|apply sba_release_all].
+Qed.
+
+Lemma sim_measfutx : forall q ip a b n, sim_of (SMeasFutX q ip a b n).
+Proof.
+  intros q ip a b n L st c st' e e' sg H I Hev HR. cbn [lower_stmt] in H.
+  destruct (low_meas q ip false st) as [[[m c0] st1]|] eqn:Em; cbn [bind] in H; [|discriminate].
+  destruct (take st1) as [[ti s1i]|] eqn:Hti; cbn [bind] in H; [|discriminate]. inv_ok H.
+  cbn [eval_stmt] in Hev. destruct (ev_measure q ip e) as [[o e1]|] eqn:Ee; [|discriminate].
+  destruct (ev_entry b (IxC n) e1) as [z|] eqn:Eb; [|discriminate].
+  destruct (z <? 0)%Z eqn:Hz; [discriminate|].
+  destruct (meas_core _ _ _ _ _ _ _ _ _ _ _ _ Em I Ee HR) as (sg1 & X1 & R1 & M1 & _).
+  apply (low_meas_rel_st _ _ _ _ _ _ _ _ _ _ Em) in R1.
+  destruct (low_meas_false_inv _ _ _ _ _ _ Em I) as [I1 _].
+  assert (Tfi := take_facts _ _ _ Hti). destruct Tfi as (Hfreei & _).
+  assert (Uti : untracked st1 (Rg BR ti)) by (apply untracked_free; assumption).
+  assert (E0 := load_entry L b (IxC n) st1 _ e1 sg1 z (Rg BR ti) eq_refl Eb R1).
+  assert (R0 : Rel L st1 e1 (set_reg sg1 (Rg BR ti) z)) by (apply Rel_set_reg; assumption).
+  destruct (Rel_store_at L a (Z.to_nat z) st1 (PReg (Rg BR ti)) e1 e' _ (PReg (Rg BM m)) o Hev R0) as (sg2 & E2 & R2 & _).
+  { cbn [rop_val]. rewrite m_reg_set_same. cbn [zidx]. rewrite Hz. reflexivity. }
+  { cbn [rop_val]. rewrite m_reg_set_other by discriminate. exact M1. }
+  exists sg2. split.
+  - eapply sx_app; [exact X1|]. unfold Lower.R, Lower.M.
+    change [XI (ILoad (Rg BR ti) b (PImm (Z.of_nat n))); XI (IStore (PReg (Rg BM m)) a (PReg (Rg BR ti)))]
+      with (map XI [ILoad (Rg BR ti) b (PImm (Z.of_nat n)); IStore (PReg (Rg BM m)) a (PReg (Rg BR ti))]).
+    apply sx_instrs. cbn [exec_instrs]. rewrite E0, E2. reflexivity.
+  - eapply Rel_sba; [exact R2|]. eapply sba_trans; [eapply sba_take; eauto|apply sba_release].
+Qed.
+
 Lemma sim_regadd : forall r o m, sim_of (SRegAdd r o m).
 Proof.
   intros r o m L st c st' e e' sg H I Hev HR. cbn [lower_stmt] in H.
@@ -866,9 +996,9 @@ Qed.
 Lemma untracked_loopreg : forall st r, Inv st -> nth_error (l_act st) r = Some false -> untracked st (Rg BR r).
 Proof. intros. apply untracked_free; assumption. Qed.
 
-Lemma loop_core : forall L st v r s1 body cbody s2 a b step n e e1 sg,
+Lemma loop_core : forall o L st v r s1 body cbody s2 a b step n e e1 sg,
   sim_block body -> bwfs body = true -> wf_body body = true -> (n = 0 -> bnoreg body = true) ->
-  alook v (l_lv st) = None -> take st = Ok (r, s1) ->
+  alook v (l_lv st) = None -> take_at o st = Ok (r, s1) ->
   lower_block true body (bind_lvr v r s1) = Ok (cbody, s2) -> Inv st -> sub (l_len s2) L ->
   step <> 0%Z -> b = (a + step * Z.of_nat n)%Z ->
   iter_loop (fun i e' => eval_block body (bind_lv v i (drop_lv v e'))) n a step e = Some e1 ->
@@ -876,10 +1006,10 @@ Lemma loop_core : forall L st v r s1 body cbody s2 a b step n e e1 sg,
   exists sg', sx (if is_nil cbody then [] else [XLoop (Rg BR r) a b step cbody]) sg sg' /\
               Rel L (release r (with_lvs s2 (l_lv st))) (drop_lv v e1) sg'.
 Proof.
-  intros L st v r s1 body cbody s2 a b step n e e1 sg IH Hwf Hwb Hn0 Hv Ht Hb I HL Hst Hbd Hit HR.
+  intros o L st v r s1 body cbody s2 a b step n e e1 sg IH Hwf Hwb Hn0 Hv Ht Hb I HL Hst Hbd Hit HR.
   destruct (proj2 wfs_plain body Hwf) as [Hp He].
-  assert (Tf := take_facts _ _ _ Ht). destruct Tf as (Hfree & Hact1 & _ & Lv1 & Rf1 & Q1 & _).
-  assert (Ib := Inv_bind_loop _ _ _ v Ht I).
+  assert (Tf := take_at_facts _ _ _ _ Ht). destruct Tf as (Hfree & Hact1 & _ & Lv1 & Rf1 & Q1 & _).
+  assert (Ib := Inv_bind_loop_at _ _ _ _ v Ht I).
   destruct (proj2 lower_facts body Hp He _ _ _ Hb Ib) as [I2 X2].
   assert (Q2 := body_q_restored _ _ _ _ Hp He Hwb Hb Ib). cbn [bind_lvr with_lvs l_q] in Q2.
   assert (Lv2 : l_lv s2 = (v, r) :: l_lv st) by (rewrite (x_lv _ _ X2); cbn; rewrite Lv1; reflexivity).
@@ -887,7 +1017,7 @@ Proof.
   { split; [|intros; discriminate]. intros v' r' Hv' X. inversion X; subst. rewrite Lv1 in Hv'.
     rewrite (i_lv _ I _ _ Hv') in Hfree. discriminate. }
   set (st3 := release r (with_lvs s2 (l_lv st))).
-  assert (I3X : Inv st3 /\ Ext st st3) by (eapply close_loop; eauto). destruct I3X as [I3 X3].
+  assert (I3X : Inv st3 /\ Ext st st3) by (eapply close_loop_at; eauto). destruct I3X as [I3 X3].
   assert (Ur3 : untracked st3 (Rg BR r)).
   { apply untracked_free; [exact I3|]. rewrite (x_act _ _ X3). exact Hfree. }
   (* the relation between rounds and after a body *)
@@ -914,7 +1044,7 @@ Proof.
     { apply Rel_bind; [exact R0|congruence|exact Hr]. }
     destruct (IH Hwf L _ _ _ _ _ _ Hb Ib HL Hev Rb) as (s2' & X & R2').
     exists s2'. split; [exact X|]. split; [exact R2'|]. rewrite (Hfr _ _ X). exact Hr. }
-  assert (R01 : Rel L s1 e sg) by (eapply Rel_sba; [exact HR|eapply sba_take; eauto]).
+  assert (R01 : Rel L s1 e sg) by (eapply Rel_sba; [exact HR|eapply sba_take_at; eauto]).
   destruct n as [|n].
   - (* no round *)
     cbn [iter_loop] in Hit. inv_ok Hit. assert (Hnr := Hn0 eq_refl).
@@ -953,16 +1083,16 @@ Qed.
 Lemma sim_loop : forall cb v oreg a b step body, sim_block body -> sim_stmt (SLoop cb v oreg a b step body).
 Proof.
   intros cb v oreg a b step body IH Hw L st code st' e e' sg H I HL Hev HR.
-  destruct oreg; [discriminate|]. cbn [wfs] in Hw.
+  cbn [wfs] in Hw.
   apply andb_prop in Hw. destruct Hw as [Hw Hz]. apply andb_prop in Hw. destruct Hw as [Hwb Hwf].
   cbn [lower_stmt] in H. destruct (alook v (l_lv st)) eqn:Hv; [discriminate|].
-  destruct (take st) as [[r s1]|] eqn:Ht; cbn [bind] in H; [|discriminate].
+  destruct (take_at oreg st) as [[r s1]|] eqn:Ht; cbn [bind] in H; [|discriminate].
   destruct (lower_block true body (bind_lvr v r s1)) as [[cbody s2]|] eqn:Hb; cbn [bind] in H; [|discriminate].
   cbn [eval_stmt] in Hev. destruct (loop_count a b step) as [n|] eqn:Hc; [|discriminate].
   destruct (iter_loop _ n a step e) as [e1|] eqn:Hit; [|discriminate]. inv_ok Hev.
   destruct (loop_count_spec _ _ _ _ Hc) as [Hst Hbd].
   assert (HL2 : sub (l_len s2) L) by (destruct (is_nil cbody); inv_ok H; exact HL).
-  destruct (loop_core L st v r s1 body cbody s2 a b step n e e1 sg IH Hwf Hwb) as (sg' & X & R'); auto.
+  destruct (loop_core oreg L st v r s1 body cbody s2 a b step n e e1 sg IH Hwf Hwb) as (sg' & X & R'); auto.
   - intros ->. apply orb_prop in Hz. destruct Hz as [Hz|Hz]; [|exact Hz].
     apply negb_true_iff in Hz. apply Z.eqb_neq in Hz. lia.
   - exists sg'. unfold Lower.R in H. destruct (is_nil cbody); inv_ok H; split; assumption.
@@ -988,7 +1118,7 @@ Proof.
     { apply HL2. apply (x_len _ _ X2). cbn. destruct (take_other_fields _ _ _ Ht) as (_ & _ & _ & _ & _ & _ & E8 & _).
       rewrite E8. exact Hlen. }
     destruct (r_len _ _ _ _ HR _ _ HaL) as (l0 & H0 & L0). rewrite Ea in H0. inv_ok H0. reflexivity. }
-  destruct (loop_core L st v r s1 body cbody s2 0%Z (Z.of_nat n) 1%Z n e e1 sg IH Hwf Hwb) as (sg' & X & R'); auto.
+  destruct (loop_core None L st v r s1 body cbody s2 0%Z (Z.of_nat n) 1%Z n e e1 sg IH Hwf Hwb) as (sg' & X & R'); auto.
   - lia.
   - lia.
   - rewrite <- Hn. exact Hit.
@@ -1024,6 +1154,14 @@ Proof.
     destruct (low_src o st) as [[[[lo y] ts] s1]|]; cbn [bind] in H; [|discriminate].
     match type of H with Ok (?cc, _) = _ => assert (Ec : c = cc) by (inversion H; reflexivity) end.
     rewrite Ec. rewrite map_app. intro X. apply app_eq_nil in X. destruct X as [_ X]. destruct m; discriminate.
+  - destruct (take st) as [[t s1]|]; cbn [bind] in H; [|discriminate].
+    destruct (take s1) as [[ti s1i]|]; cbn [bind] in H; [|discriminate].
+    destruct (low_src o (release ti s1i)) as [[[[lo y] ts] s2]|]; cbn [bind] in H; [|discriminate].
+    match type of H with Ok (?cc, _) = _ => assert (Ec : c = cc) by (inversion H; reflexivity) end.
+    rewrite Ec. cbn. discriminate.
+  - destruct (low_meas q inplace false st) as [[[m c0] s1]|]; cbn [bind] in H; [|discriminate].
+    destruct (take s1) as [[ti s1i]|]; cbn [bind] in H; [|discriminate]. inv_ok H.
+    intro X. apply app_eq_nil in X. destruct X; discriminate.
 Qed.
 
 Lemma emits_nonnil : forall b st c st', emits b = true -> lower_block true b st = Ok (c, st') -> c <> [].
@@ -1188,8 +1326,8 @@ Proof.
   - intros v mx body IHb cx bound cl IHc. apply sim_until; assumption.
   - intros k body IH Hw. discriminate.
   - intro Hw. discriminate.
-  - intros a b n o m Hw. discriminate.
-  - intros q ip a b n Hw. discriminate.
+  - intros a b n o m. apply sim_leaf, sim_futaddx.
+  - intros q ip a b n. apply sim_leaf, sim_measfutx.
   - intros _ L st c st' e e' sg H I HL Hev HR. inv_ok H. inv_ok Hev. exists sg. split; [apply sx_nil|exact HR].
   - intros s IHs b IHb Hw L st c st' e e' sg H I HL Hev HR. cbn [bwfs] in Hw.
     apply andb_prop in Hw. destruct Hw as [Hw1 Hw2].
